@@ -235,6 +235,13 @@ class Tr2:
             parts = [("nat", "(%d : Nat)" % x.value) if self.int_as_nat and isinstance(x, ast.Constant)
                      and type(x.value) is int and x.value >= 0 else self.expr(x) for x in e.elts]
             return ("tuple", [k for k, _ in parts]), "(" + ", ".join(s for _, s in parts) + ")"
+        if isinstance(e, ast.IfExp):
+            # conditional expression `a if c else b` on scalars / vectors of one kind
+            c = self.cond(e.test)
+            (ka, a), (kb, b) = self.expr(e.body), self.expr(e.orelse)
+            if ka == kb and ka in ("scalar", "vec"):
+                return ka, "(if %s then %s else %s)" % (c, a, b)
+            raise Unsupported("conditional expression of kinds %s/%s" % (ka, kb))
         if isinstance(e, ast.UnaryOp):
             k, s = self.expr(e.operand)
             if isinstance(e.op, ast.USub) and k in ("scalar", "vec"):
@@ -356,6 +363,8 @@ class Tr2:
                 return "scalar", "(V3.dot %s %s)" % (a, b)
             if ka == "mat" and kb == "vec":
                 return "vec", "(M3.mulVec %s %s)" % (a, b)
+            if ka == "matT" and kb == "vec":   # `R.T.dot(v)`: the same routine as np.dot(R.T, v)
+                return "vec", "(M3.tmulVec %s %s)" % (a, b)
             raise Unsupported("call " + ast.unparse(e)[:60])
         args = [self.expr(a) for a in e.args] if not (fn == "np.array") else None
         ks = [k for k, _ in args] if args is not None else None
@@ -413,6 +422,26 @@ class Tr2:
             lname, pk, rk = self.known[fn]
             if ks == pk:
                 return rk, "(%s %s)" % (lname, " ".join(s for _, s in args))
+        helper = getattr(self, "module_fns", {}).get(fn) if isinstance(e.func, ast.Name) else None
+        if helper is not None and fn not in getattr(self, "_inlining", ()):
+            # a helper of the same module whose body is one `return <expr>`: inline it (pure expression, the
+            # parameters are replaced by the argument expressions), so extracting such a helper keeps the link
+            hb = [st for st in helper.body if not (isinstance(st, ast.Expr) and isinstance(st.value, ast.Constant))]
+            hp = [a.arg for a in helper.args.args]
+            if (len(hb) == 1 and isinstance(hb[0], ast.Return) and hb[0].value is not None and len(hp) == len(e.args)
+                    and not (helper.args.vararg or helper.args.kwarg or helper.args.kwonlyargs or helper.args.defaults)):
+                import copy
+                sub = dict(zip(hp, e.args))
+
+                class _Subst(ast.NodeTransformer):
+                    def visit_Name(self, node):
+                        return copy.deepcopy(sub[node.id]) if node.id in sub else node
+                inl = _Subst().visit(copy.deepcopy(hb[0].value))
+                self._inlining = tuple(getattr(self, "_inlining", ())) + (fn,)
+                try:
+                    return self.expr(inl)
+                finally:
+                    self._inlining = self._inlining[:-1]
         raise Unsupported("call " + ast.unparse(e)[:60])
 
     def cond(self, e):
@@ -854,6 +883,7 @@ def translate_spec(tag):
                     raise Unsupported("parameter list changed")
                 tr = Tr2(params, kinds, known, spec["minmax"], spec.get("consts"))
                 tr.int_as_nat = bool(spec.get("int_as_nat"))
+                tr.module_fns = trees[path]
                 rk, term = tr.block(body)
                 sig = " ".join("(%s : %s)" % (p, _lean_type(k)) for p, k in zip(params, kinds))
                 out.append("/-- `%s:%s` -/\ndef %s %s : %s :=\n%s\n\n" % (pyfile, py, name, sig, _lean_type(rk), term))
